@@ -80,12 +80,12 @@ def check_roundtrip(case):
     m = gen.build(built_spec)
     s1 = m.to_string()
     p1 = _parse(s1, _kindsig(spec))
+    if type(p1) is not type(m):
+        raise Failure("kind-differs", f"{type(m).__module__}.{type(m).__name__} -> {type(p1).__module__}.{type(p1).__name__} for {s1!r}")
     want = gen.expected_view(spec)
     got = gen.view(p1)
     if got != want:
         raise Failure(f"view-differs:{_kindsig(spec)}", f"sent {want}\n got {got}\n wire {s1!r}")
-    if type(p1).__name__ != type(m).__name__:
-        raise Failure("kind-differs", f"{type(m).__name__} -> {type(p1).__name__}")
     s2 = p1.to_string()
     if normal:
         if s2 != s1:
@@ -104,6 +104,8 @@ def check_foreign(case):
     text = gen.render_foreign(spec, case["choices"], ascii_only=not case.get("latin1"))
     data = text if case.get("as_str", True) or case.get("latin1") else text.encode("ascii")
     p = _parse(data, _kindsig(spec))
+    if type(p) is not type(m):
+        raise Failure("foreign-kind-differs", f"{type(m).__module__}.{type(m).__name__} -> {type(p).__module__}.{type(p).__name__} for {text!r}")
     want = gen.expected_view(spec)
     got = gen.view(p)
     if got != want:
